@@ -1,4 +1,5 @@
 mod c13;
+mod c15;
 mod c20;
 mod coqfmt;
 mod ctx;
@@ -32,6 +33,7 @@ fn main() {
     let mut ctx = ctx::Ctx::new(&prop, thorough, seed, out, only);
     match prop.as_str() {
         "C13" => c13::run(&mut ctx),
+        "C15" => c15::run(&mut ctx),
         "C20" => c20::run(&mut ctx),
         _ => {
             eprintln!("unknown property {}", prop);
